@@ -599,7 +599,8 @@ def gen_callgraph_module(r):
                 body.append(f"return [{callee}(v) for v in x]")
             else:
                 body.append(f"raise ValueError({callee}(x))")
-        lines.append(f"def {name}(x):\n" + "".join(f"    {b}\n" for b in body) + "\n")
+        deco = "@wrap\n" if r.random() < 0.12 else ""
+        lines.append(f"{deco}def {name}(x):\n" + "".join(f"    {b}\n" for b in body) + "\n")
     extra = r.random()
     if extra < 0.15:
         lines.append(f"{r.choice(defs)} = abs\n")
@@ -639,7 +640,7 @@ def summarise_module(src):
             return any(core.has_side_effect(c, white) for c in counted)
         intrinsic = effect(frozenset(all_names))
         calls = [] if intrinsic else sorted(c for c in all_names if effect(frozenset(all_names - {c})))
-        defs.append([node.name, bool(intrinsic), calls])
+        defs.append([node.name, bool(intrinsic), calls, bool(node.decorator_list)])
         checks.append((effect, intrinsic, calls))
     stores = sorted({n.id for n in core.walk(tree, ast.Name(ctx=ast.Store))})
     other = sorted({n.name for n in core.walk(tree, ast.ClassDef)} | {a.asname or a.name.split(".")[0] for n in core.walk(tree, (ast.Import, ast.ImportFrom)) for a in n.names})
@@ -689,7 +690,7 @@ def safecalls_suite(ctx):
         s.count("admitted=%d" % min(len(admitted), 3))
         if len({d[0] for d in defs}) < len(defs) or admitted:
             s.nt(src)
-    s.samples.append({"suite": "safecalls", "defs": [["f", False, ["g"]], ["g", False, []]], "names_beyond_builtins": ["f", "g"]})
+    s.samples.append({"suite": "safecalls", "defs": [["f", False, ["g"], False], ["g", False, [], False]], "names_beyond_builtins": ["f", "g"]})
     s.note = ("7 hand-written + random modules of 1-6 small functions over 9 names (three of them names of builtins) that call each other, builtins and unknown functions directly, nested, through key= and in comprehensions, "
               "with redefinitions, rebinding assignments, imports and classes: the per-definition summary is computed with the real has_side_effect / is_blocking (and checked under random whitelists), the fixpoint "
               "is the model's; admitted names vs parsing.safe_callable_names (class names aside); non-trivial = a name defined twice or a user function admitted")
